@@ -1,10 +1,12 @@
 (* C01 — a file reported as delivered is byte-identical to the source file.
    Pinned statements: the receiver half at the data level (unbounded induction over the PDUs
-   received), its glue with the receive-transaction model, and the sender half (C07). The
-   composition over the two-machine system with a lossy link is stated in DESIGN.md and is not
-   mechanised (partial). *)
+   received), its glue with the receive-transaction model, the receiver half as an invariant of
+   the receive-transaction model over every operation and every history, the sender half (C07 and
+   the truth of its Metadata / EOF PDUs), and the composition over the two-machine system with a
+   lossy, duplicating, reordering link (Model/Link.v). *)
 From CFDP Require Import Base.Prelude Model.Segments Model.Timer Model.TxTypes Model.Recv Model.Send
-  Proofs.SegmentsP Proofs.StageP Proofs.RecvInv Proofs.SendP.
+  Model.TxInst Model.Link
+  Proofs.SegmentsP Proofs.StageP Proofs.RecvInv Proofs.RecvRun Proofs.SendP Proofs.DeliverP Proofs.LinkP.
 
 (* Receiver half. For every source file f and every sequence of file data PDUs that are
    truthful for f (each carries f's bytes at its offset and lies inside f) - in any order, with
@@ -43,6 +45,54 @@ Proof.
   destruct F as (A & _ & _ & D). unfold truthful_fd. cbn [fst snd]. auto.
 Qed.
 
+(* Receiver half as an invariant (DeliverP.v). Inputs are truthful for (f, m) when every file data
+   PDU carries f's bytes at its offset inside f, every Metadata PDU is m, every NoError EOF states
+   |f|; ACKs, prompts, Finished, NAKs, user requests and timeouts are unconstrained. The filestore
+   is abstract: any type with a write and a lookup such that a successful write is visible. For
+   EVERY history of truthful inputs - any order, duplication, loss, interleaving with user requests
+   and timer expiries - if the transaction ever emits a Finished indication or a Finished PDU
+   saying Retained / Complete, then at the end of the history the filestore holds exactly f under
+   the destination name. The checksum plays no role. (m carries no filestore requests: those could
+   legitimately rename or delete the delivered file.) *)
+Theorem C01_receiver_history : forall FS fs_write_file fs_exec resp_fail not_performed cksum resp_len req_len
+  (lookup : FS -> bytes -> option bytes),
+  (forall fs name content fs', fs_write_file fs name content = Some fs' -> lookup fs' name = Some content) ->
+  forall f m, md_reqs m = [] ->
+  forall ops (s : rstate FS), DG FS lookup f m s -> truthful_ops f m ops ->
+  forall o, In o (routs fs_write_file fs_exec resp_fail not_performed cksum resp_len req_len ops s) -> success_out o ->
+  lookup (r_fs (rrun fs_write_file fs_exec resp_fail not_performed cksum resp_len req_len ops s)) (md_dst m) = Some f.
+Proof. exact delivered_is_source. Qed.
+
+(* the invariant holds for a new transaction, and every single operation keeps it *)
+Theorem C01_receiver_initial : forall FS (lookup : FS -> bytes -> option bytes) f m now cfg np fs,
+  DG FS lookup f m (r_new now cfg np fs).
+Proof. intros. left. apply DU_init. Qed.
+Theorem C01_receiver_step : forall FS fs_write_file fs_exec resp_fail not_performed cksum resp_len req_len
+  (lookup : FS -> bytes -> option bytes),
+  (forall fs name content fs', fs_write_file fs name content = Some fs' -> lookup fs' name = Some content) ->
+  forall f m, md_reqs m = [] -> forall now o (s : rstate FS), DU FS lookup f m s -> truthful_in f m o ->
+  DG FS lookup f m (fst (rstep FS fs_write_file fs_exec resp_fail not_performed cksum resp_len req_len now o s)).
+Proof. exact DG_rstep. Qed.
+
+(* Sender half, the directives: every Metadata PDU a sender emits is its metadata, every EOF PDU
+   states the metadata's file size (= |f| by C07), and its file never changes *)
+Theorem C01_sender_directives_truthful : forall cksum resp_len req_len f m now o s,
+  SE f m s -> SE f m (fst (sstep cksum resp_len req_len now o s)).
+Proof. exact SE_sstep. Qed.
+
+(* Composition. In the two-machine system started for file f and metadata m, after ANY script of
+   link and user behaviour (deliver any PDU in flight, duplicate, drop, cut a direction, user
+   cancel/suspend/resume/report/prompt at either end, time advances, the loops left alone):
+   every PDU in flight towards the receiver is truthful, and whenever the receive transaction
+   claimed Retained / Complete during the last operation, the receiving filestore holds exactly f
+   under the destination name. *)
+Theorem C01_system : forall f m, md_reqs m = [] ->
+  forall now cfg np ops, md_size m = N.of_nat (length f) -> 0 < cfg_seg cfg ->
+  let l := lrun ops (l_new now cfg np m f) in
+  Forall (truthful_pl f m) (l_sr l) /\
+  forall o, In o (l_racc l) -> success_out o -> flat_lookup (r_fs (l_r l)) (md_dst m) = Some f.
+Proof. exact system_delivered. Qed.
+
 (* non-vacuity: a 7-byte file received as three out-of-order, overlapping segments *)
 Example C01_nonvacuous :
   let f := [10; 20; 30; 40; 50; 60; 70] in
@@ -52,9 +102,25 @@ Proof.
   cbn zeta. splits; [|vm_compute; reflexivity|vm_compute; reflexivity].
   repeat constructor; vm_compute; try reflexivity; intros H; discriminate.
 Qed.
+(* ... and a system run in which the premise of C01_system is met: a lossy exchange at the end of
+   which the receiver did emit a success claim *)
+Example C01_system_nonvacuous :
+  let cfg := mkConfig Acked false false 16 3 40000 3000 4000 [] 1 2 7 1 1 in
+  let f := map N.of_nat (seq 1 40) in
+  let md := mkMeta [115] [100] 40 CkModular false [] [] in
+  let ops := [LS USend; LDrop true 0; LS USend; LS USend; LDrop true 1; LRun 400] in
+  let l := lrun ops (l_new 0 cfg (Deferred 0) md f) in
+  existsb (fun o => match o with OInd (IFinished _ FRetained DComplete _) => true | _ => false end) (l_racc l) = true /\
+  flat_lookup (r_fs (l_r l)) [100] = Some f.
+Proof. vm_compute. auto. Qed.
 
 Print Assumptions C01_staged_file_is_source.
 Print Assumptions C01_store_is_stage_step.
 Print Assumptions C01_delivered_file_is_staged_file.
 Print Assumptions C01_complete_only_if_all_received.
 Print Assumptions C01_sender_emits_truthful_data.
+Print Assumptions C01_receiver_history.
+Print Assumptions C01_receiver_initial.
+Print Assumptions C01_receiver_step.
+Print Assumptions C01_sender_directives_truthful.
+Print Assumptions C01_system.
